@@ -304,7 +304,7 @@ def tie(ctx):
         if why:
             violations.append({"why": why[0], "all": why[:5], "input": inp, "observed": {"final": out["final"], "err": out["err"]}, "signature": "c10:" + " ".join(why[0].split(" ")[:3])})
     return {"families": fam, "violations": violations, "evaluations": len(cases), "distinct_nontrivial": len(distinct),
-            "rule": "full genotype() on simulated BAMs of generated genes (2-4 planted copies with unequal per-copy depth 5-16 => ambiguous structures), gap {0,0.1,0.3}, 1 or 3 minor solutions per major, stage failures injected by emptying a stage's return; non-trivial = more than one structure or major solution reached the selection; distinct by hash",
+            "rule": "full genotype() on simulated BAMs of generated genes (2-4 planted copies with unequal per-copy depth 5-16 => ambiguous structures), gap {0,0.1,0.3}, structures the copy-number stage returned but the major stage never saw are explored by the oracle, 1 or 3 minor solutions per major, stage failures injected by emptying a stage's return; non-trivial = more than one structure or major solution reached the selection; distinct by hash",
             "samples": samples, "stats": dict(stats)}
 
 
